@@ -791,5 +791,41 @@ theorem apply_sim (E : Env) : ∀ (n : Nat), SimRec (apply E n) (apply E n)
     · exact absurd hu hne
     · exact he.symm
 
+/-! ### reading a simulation -/
+
+theorem Sim.ok_inv {α β : Type} {R : α → β → Prop} {a : Res α} {b : Res β} (h : Sim R a b) {x : α}
+    (ha : a = .ok x) : ∃ y, b = .ok y ∧ R x y := by
+  cases h <;> simp at ha
+  subst ha; exact ⟨_, rfl, ‹_›⟩
+
+theorem Sim.err_inv {α β : Type} {R : α → β → Prop} {a : Res α} {b : Res β} (h : Sim R a b) {c : String}
+    (ha : a = .err c) : ∃ c', b = .err c' := by
+  cases h <;> simp at ha
+  exact ⟨_, rfl⟩
+
+theorem Sim.panic_inv {α β : Type} {R : α → β → Prop} {a : Res α} {b : Res β} (h : Sim R a b) {w : String}
+    (ha : a = .panic w) : ∃ w', b = .panic w' := by
+  cases h <;> simp at ha
+  exact ⟨_, rfl⟩
+
+theorem Sim.ok_inv_right {α β : Type} {R : α → β → Prop} {a : Res α} {b : Res β} (h : Sim R a b)
+    (hne : a ≠ .unmodelled) {y : β} (hb : b = .ok y) : ∃ x, a = .ok x ∧ R x y := by
+  cases h <;> simp at hb hne
+  subst hb; exact ⟨_, rfl, ‹_›⟩
+
+theorem Sim.right_ne_unmodelled {α β : Type} {R : α → β → Prop} {a : Res α} {b : Res β} (h : Sim R a b)
+    (hne : a ≠ .unmodelled) : b ≠ .unmodelled := by
+  cases h <;> simp at hne ⊢
+
+/-- `convert.Convert` on a value and on its deeply unmarked copy, same fuel -/
+theorem convert_sim (E : Env) (n : Nat) {v : Value} (hw : v.MarksWF) (want : Ty) :
+    Sim RV (convert E n v want) (convert E n v.unmarkDeep want) :=
+  convertWith_sim (apply_sim E n) E hw want
+
+/-- a conversion `GetConversion*` returned, on a value and on its deeply unmarked copy -/
+theorem getConv_sim (E : Env) (n : Nat) {v : Value} (hw : v.MarksWF) {inT want : Ty} {uns : Bool} {p : Plan}
+    (hg : getConv E inT want uns = some p) : Sim RV (apply E n p v) (apply E n p v.unmarkDeep) :=
+  apply_sim E n p v (getConv_shaped hg).1 hw (.inl (getConv_shaped hg).2)
+
 end D08B
 end CtyModel
